@@ -1,6 +1,7 @@
 # Copyright 2024, Battelle Energy Alliance, LLC All Rights Reserved.
 from abc import abstractmethod
 import montepy
+from montepy.constants import BLANK_SPACE_CONTINUE
 from montepy.data_inputs.data_input import DataInputAbstract
 from montepy.input_parser import syntax_node
 from montepy.input_parser.block_type import BlockType
@@ -282,7 +283,9 @@ class CellModifierInput(DataInputAbstract):
             # in a cell the parameter after this one may have stood on a new line: that line break is
             # part of the cell's text (Cell.format_for_mcnp_input starts a continuation line after it)
             if self.in_cell_block and lines and text.rstrip(" ").endswith("\n"):
-                lines.append("")
+                # with the blanks that followed it (at least the indentation of a continuation line)
+                indent = text[len(text.rstrip(" ")) :]
+                lines.append(indent.ljust(BLANK_SPACE_CONTINUE))
             return lines
         return []
 
